@@ -11,15 +11,28 @@ Modes
                   `x / scalar` and `R /= scalar`: the documented reciprocal form is accepted by the clause
                   `out == x/s  ||  out == x*(1/s)` (that the second is within one rounding of the first is a
                   standard lemma, not machine-checked).
-  int32, int64  : SYM (all 2^(32n) / 2^(64n) inputs, real two's-complement semantics) for trees over
-                  + - abs compare logic, scalar (symbolic) +/-/compare and multiplication by a small constant;
-                  ATOMS for the pure element-wise products A*B and s*A.
+  int32, int64  : SYM on pipeline P0 (all 2^(32n) / 2^(64n) inputs, real two's-complement semantics) for trees over
+                  + - abs compare logic with symbolic scalars; multiplication by a small literal in the family
+                  int-kmul; ATOMS for the pure element-wise products A*B and s*A.
                   int64 means int64_t (= long): `long long` tensors are not vectorised by the library at all.
   Unary minus on integer tensors is isolated in the family C02/neg-int (known defect: the vector body flips the
   sign bit instead of negating).
+
+Budgets (all measured, see uf_pairs / sym_cost):
+  * UF cost is quadratic in the number of uninterpreted applications per function symbol (code + clause), the
+    commutative fadd/fmul about three times dearer.  Every size 1..2V+1 of every (ISA, float type) is covered by the
+    richest tree / assignment form that fits the budget (family arith, "size sweep": on the longest AVX-512 tensors
+    that is a tree of negations/abs or a single subtraction/division), and depth-2 (thorough: depth-3) trees run on
+    the longest tensor that fits, the vector body included where affordable ("operator sweep").
+  * Literal-scalar workaround: a *symbolic* scalar shared by all lanes as a direct operand of a commutative
+    operation (A+s, s*A, R*=s, and R/=s which is r*(1/s)) makes the SAT instance blow up beyond a few lanes.  In the
+    tree grammar + and * therefore take a literal scalar (2.5, -0.75, 3.0, -1.5) and the symbolic scalar sits in the
+    non-commutative positions (A-s, s-A, A/s, s/A, comparisons); the families sym-scalar and scalar-rhs cover the
+    symbolic scalar under + * /= on short tensors (n <= 5).  Integers use the symbolic scalar everywhere.
+  * SYM: the solver proves two separately built adder networks equal; cost index elements x adders x bits/32 <= 36.
 Not reachable by the proof route (clang IR, memory as bytes; DESIGN.md 2.3), seen only natively with g++ -O2:
-  the strict-aliasing dependent miscompilations of the int64 SIMD multiply (SSE2..AVX2) and of the AVX-512 integer
-  abs fallback.
+  the strict-aliasing dependent miscompilations of the int64 SIMD multiply (SSE2..AVX2: products are 0) and of the
+  AVX-512 integer abs fallback (taken because `__GNUC__ >= 7 && __GNUC_MINOR__ >= 4` is false for g++ 12.2).
 """
 from units.common import *
 
@@ -123,7 +136,7 @@ def key(x):
 # ----------------------------------------------------------------------------------------------
 # tree generation
 # ----------------------------------------------------------------------------------------------
-def arith_trees(depth, flt, leaves=('a', 'b'), neg=True, symmul=True):
+def arith_trees(depth, flt, leaves=('a', 'b'), neg=True, symmul=True, rng=None, cap=4000):
     """arithmetic (non-boolean) tensor-valued trees up to `depth`.
     flt: float grammar (/, sqrt, symbolic-scalar multiplication); otherwise the SYM-safe integer grammar
     (no tensor*tensor, no division; multiplication by a small constant lives in the family int-kmul)."""
@@ -133,12 +146,16 @@ def arith_trees(depth, flt, leaves=('a', 'b'), neg=True, symmul=True):
         prev = [t for dd in range(d) for t in level[dd]]
         top = level[d - 1]
         new = []
+        if len(top) > cap: top = sample(rng, top, cap)
         for x in top:
             if neg: new.append(un('neg', x))
             new.append(un('abs', x))
             if flt: new.append(un('sqrt', x))
-        for x in prev:
-            for y in prev:
+        px, py = prev, prev
+        if len(prev) * len(prev) > 4 * cap:      # depth 3: a seeded sample of the operand pairs instead of all of them
+            px = sample(rng, prev, 2 * int(cap ** 0.5)); py = sample(rng, prev, 2 * int(cap ** 0.5))
+        for x in px:
+            for y in py:
                 if max(x.depth(), y.depth()) != d - 1: continue
                 new.append(bn('add', x, y)); new.append(bn('sub', x, y))
                 if flt:
@@ -366,10 +383,10 @@ def cases(tier, seed):
     rng = random.Random(seed)
     thorough = tier == 'thorough'
     out = []
-    PMAX = 6000 if thorough else 800
-    SMAX = 120 if thorough else 36
-    FT = arith_trees(3 if thorough else 2, True)
-    IT = arith_trees(3 if thorough else 2, False, neg=False)
+    PMAX = 4000 if thorough else 800
+    SMAX = 90 if thorough else 36
+    FT = arith_trees(3 if thorough else 2, True, rng=rng)
+    IT = arith_trees(3 if thorough else 2, False, neg=False, rng=rng)
     FT1 = [t for t in FT if t.depth() >= 1]
     IT1 = [t for t in IT if t.depth() >= 1]
     ITD1 = [t for t in IT if t.depth() == 1]
